@@ -16,7 +16,7 @@ from ..interp import Interp, Hooks
 from ..templates import TemplateHooks, make_hole, to_term, show
 from ..galg import GraphHooks
 from .. import oracle
-from ..report import Finding, RuleResult, floor
+from ..report import Finding, RuleResult, floor, Attempts
 from . import c19
 
 PROP = 'C03'
@@ -420,14 +420,16 @@ def _shape_term(s):
 
 
 def run(prog, tier, seed):
+    T = Attempts()
     D = discover(prog)
-    r1, r2 = rule_ctls12(prog, D)
-    r3 = c19.rule_res5(prog)
-    r3.rule = 'R-CTLS-3'
-    for f in r3.findings:
-        f.prop = PROP
-        f.rule = 'R-CTLS-3'
-    r4, r5 = rule_ctls45(prog, D)
+    r1, r2 = T(rule_ctls12, prog, D, _n=2)
+    r3 = T(c19.rule_res5, prog)
+    if r3 is not None:
+        r3.rule = 'R-CTLS-3'
+        for f in r3.findings:
+            f.prop = PROP
+            f.rule = 'R-CTLS-3'
+    r4, r5 = T(rule_ctls45, prog, D, _n=2)
     expl = ('The CTL* checker is analysed as a composition: the eliminator '
             'of quantified subformulas (discovered from CTLS.modelcheck) is '
             'interpreted per formula shape: atoms are returned unchanged, a '
@@ -443,4 +445,4 @@ def run(prog, tier, seed):
             'decided: exactness of the answers (they inherit C01/C02).')
     assumptions = ['C01 / C02 for the delegated checkers',
                    'fresh names do not collide (R-CTLS-3)']
-    return [r1, r2, r3, r4, r5], expl, assumptions, {}
+    return T.results(r1, r2, r3, r4, r5), expl, assumptions, T.extra()
